@@ -173,7 +173,13 @@ def is_valid_cidr(address):
             ip_segment[1] == ''):
         return False
 
-    return True
+    return _is_plain_prefix(ip_segment[1])
+
+
+def _is_plain_prefix(prefix):
+    # netaddr converts the prefix with int(), which also accepts
+    # surrounding white space, a sign and non-ASCII digits.
+    return prefix.isascii() and prefix.replace('.', '').isdigit()
 
 
 def is_valid_ipv6_cidr(address):
@@ -187,9 +193,10 @@ def is_valid_ipv6_cidr(address):
     """
     try:
         netaddr.IPNetwork(address, version=6).cidr
-        return True
     except (TypeError, ValueError, netaddr.AddrFormatError):
         return False
+    prefix = str(address).partition('/')[2]
+    return not prefix or _is_plain_prefix(prefix)
 
 
 def get_ipv6_addr_by_EUI64(prefix, mac):
